@@ -317,6 +317,84 @@ func CLIPrintIdentity(p *core.Program, r *core.Report, rule string) {
 				_, n := ssaCalleeName(c.Common())
 				want, isEntry := sp.pathGlobals[n]
 				if !isEntry {
+					// the analysis step extracted into a helper of package cli: every value the helper returns as its first
+					// result is result #0 of a library entry point called on the helper's analyzer parameter (which is our
+					// analyzer) with the flag variables in order
+					if callee := c.Call.StaticCallee(); callee != nil && callee.Pkg == sf.Pkg && callee.Blocks != nil {
+						hb := ""
+						nRet := 0
+						for _, b := range callee.Blocks {
+							for _, ins := range b.Instrs {
+								ret, isRet := ins.(*ssa.Return)
+								if !isRet || len(ret.Results) == 0 {
+									continue
+								}
+								nRet++
+								var hl []ssa.Value
+								var hw func(v ssa.Value, seen map[ssa.Value]bool)
+								hw = func(v ssa.Value, seen map[ssa.Value]bool) {
+									if seen[v] {
+										return
+									}
+									seen[v] = true
+									if ph, ok := v.(*ssa.Phi); ok {
+										for _, e := range ph.Edges {
+											hw(e, seen)
+										}
+										return
+									}
+									hl = append(hl, v)
+								}
+								hw(ret.Results[0], map[ssa.Value]bool{})
+								for _, v := range hl {
+									if k, isK := v.(*ssa.Const); isK && k.IsNil() {
+										continue // the zero value declared before the branches
+									}
+									ex2, ok := v.(*ssa.Extract)
+									if !ok || ex2.Index != 0 {
+										hb = "a value returned by " + n + " is not result #0 of a library entry point"
+										continue
+									}
+									c2, ok := ex2.Tuple.(*ssa.Call)
+									if !ok {
+										hb = "a value returned by " + n + " has an unknown origin"
+										continue
+									}
+									_, n2 := ssaCalleeName(c2.Common())
+									want2, isEntry2 := sp.pathGlobals[n2]
+									if !isEntry2 {
+										hb = "a value returned by " + n + " comes from " + n2 + ", not from a library entry point"
+										continue
+									}
+									seenEntries[n2] = true
+									prm, isPrm := c2.Call.Args[0].(*ssa.Parameter)
+									pi := -1
+									if isPrm {
+										for i, fp := range callee.Params {
+											if fp == prm {
+												pi = i
+											}
+										}
+									}
+									if pi < 0 || pi >= len(c.Call.Args) || c.Call.Args[pi] != recv {
+										hb = n2 + " (in " + n + ") and " + sp.toString + " are called on different analyzers (options differ)"
+									}
+									for i, g := range want2 {
+										if i+1 >= len(c2.Call.Args) || globalLoad(c2.Call.Args[i+1]) != g {
+											hb = fmt.Sprintf("argument #%d of %s is not the flag variable %s", i+1, n2, g)
+										}
+									}
+								}
+							}
+						}
+						if nRet == 0 {
+							hb = n + " returns nothing"
+						}
+						if hb != "" {
+							bad = hb
+						}
+						continue
+					}
 					bad = "the rendered value comes from " + n + ", not from a library entry point"
 					continue
 				}
@@ -379,7 +457,8 @@ func CLIPrintIdentity(p *core.Program, r *core.Report, rule string) {
 					bad = "the file write depends on a condition other than `outFile != \"\"`"
 				} else if iff, ok := pb.Instrs[len(pb.Instrs)-1].(*ssa.If); !ok {
 					bad = "the file write is not guarded by `outFile != \"\"`"
-				} else if bo, ok := iff.Cond.(*ssa.BinOp); !ok || bo.Op != token.NEQ || globalLoad(bo.X) != "outFile" || pb.Succs[0] != wb {
+				} else if bo, ok := iff.Cond.(*ssa.BinOp); !ok || globalLoad(bo.X) != "outFile" || !((bo.Op == token.NEQ && pb.Succs[0] == wb) || (bo.Op == token.EQL && pb.Succs[1] == wb)) {
+					// `if outFile != "" { write }` or the guard clause `if outFile == "" { return nil }; write`
 					bad = "the file write is not guarded by `outFile != \"\"`"
 				} else if k, ok := bo.Y.(*ssa.Const); !ok || k.Value == nil || constant.StringVal(k.Value) != "" {
 					bad = "the file write is not guarded by `outFile != \"\"`"
@@ -839,6 +918,12 @@ func CLIExitChain(p *core.Program, r *core.Report, rule string) {
 			return true
 		})
 		if call == nil {
+			// the command function handed to a runner as a value: RunE returns runner(..., runX), and the runner calls its
+			// function parameter and propagates that call's error
+			if ok, why, at := runsThroughHelper(p, info, runE.Body, runFd.Obj); at != token.NoPos {
+				r.Check(ok, rule, construct, p.Pos(at), why, "RunE drops the command's error ("+why+"): exit status 0 on failure")
+				continue
+			}
 			r.Bad(rule, construct, p.Pos(runE.Pos()), "RunE does not call "+sp.run)
 			continue
 		}
@@ -1348,4 +1433,55 @@ func DirAPIForwardsToInfosAPI(p *core.Program, r *core.Report, rule string) {
 		r.Check(bad == "", rule, fd.Key()+": every successful return is "+sp.infoFn+"(scanned infos) on the same analyzer", p.Pos(fd.Decl.Pos()), fmt.Sprintf("%d forwarding returns", nFwd), "the directory API no longer answers with what the resource-info API returns on the scanned infos: "+bad)
 	}
 	r.Floor(rule, 4)
+}
+
+// runsThroughHelper: body calls a module function with the function run as an argument; that function calls the
+// parameter, and both calls propagate their error (propagatesIn). at is the position of the outer call (NoPos: no such call).
+func runsThroughHelper(p *core.Program, info *types.Info, body *ast.BlockStmt, run *types.Func) (ok bool, why string, at token.Pos) {
+	var outer *ast.CallExpr
+	idx := -1
+	ast.Inspect(body, func(n ast.Node) bool {
+		c, isC := n.(*ast.CallExpr)
+		if !isC {
+			return true
+		}
+		for i, a := range c.Args {
+			if id, isID := ast.Unparen(a).(*ast.Ident); isID && info.ObjectOf(id) == run {
+				outer, idx = c, i
+			}
+		}
+		return true
+	})
+	if outer == nil {
+		return false, "", token.NoPos
+	}
+	at = outer.Pos()
+	fn := core.Callee(info, outer)
+	if fn == nil || !p.IsModuleFunc(fn) || p.ByObj[fn] == nil {
+		return false, "the command function is handed to a function outside the module", at
+	}
+	h := p.ByObj[fn]
+	sig := fn.Type().(*types.Signature)
+	if idx >= sig.Params().Len() {
+		return false, "variadic runner", at
+	}
+	param := sig.Params().At(idx)
+	hinfo := h.Pkg.TypesInfo
+	var inner *ast.CallExpr
+	ast.Inspect(h.Decl.Body, func(n ast.Node) bool {
+		if c, isC := n.(*ast.CallExpr); isC {
+			if id, isID := ast.Unparen(c.Fun).(*ast.Ident); isID && hinfo.ObjectOf(id) == param {
+				inner = c
+			}
+		}
+		return true
+	})
+	if inner == nil {
+		return false, core.RefName(fn) + " does not call the command function it is given", at
+	}
+	if ok1, why1 := propagatesIn(p, hinfo, h.Decl.Body, inner); !ok1 {
+		return false, "in " + core.RefName(fn) + ": " + why1, at
+	}
+	ok2, why2 := propagatesIn(p, info, body, outer)
+	return ok2, why2 + " (through " + core.RefName(fn) + ", which returns the error of the command function it is given)", at
 }
